@@ -220,6 +220,19 @@ func forEachCorpusText(c *core.Ctx, opt corpusOpt, f func(family, text string) b
 		}
 		bounds = append(bounds, fmt.Sprintf("two-level trees: %d parent positions x %d child constructs (parenthesised and bare)", len(parents), len(children)))
 	}
+	// every kind of token / construct in parameter position (most are rejected: those accepted must round trip)
+	{
+		forms := []string{"func f(%s) { 1 }", "func(%s) { 1 }", "(%s) => 1", "%s => 1", "macro(%s) { 1 }", "func f(a, %s) { 1 }", "func f(%s, b) { 1 }", "(a, %s) => 1", "func f(a, %s, ..) { 1 }"}
+		toks := []string{"a", "1", "1.5", `"s"`, "`r`", "true", "nil", "..", "+", "-", "!", "a.b", "a[1]", "(a)", "f(x)", "-a", "[1]", "{1:2}", "a b", "", "_", "A", "a = 1", "if", "func", "x => x", "/* c */ a", "a // c\n"}
+		for _, fm := range forms {
+			for _, t := range toks {
+				if !emit("params", strings.Replace(fm, "%s", t, 1)) {
+					return false, bounds
+				}
+			}
+		}
+		bounds = append(bounds, fmt.Sprintf("%d parameter-list forms x %d token kinds in parameter position", len(forms), len(toks)))
+	}
 	// every triple of infix operators in every grouping of four operands
 	{
 		shapes := []string{"a %s (b %s c %s d)", "(a %s b %s c) %s d", "a %s (b %s c) %s d", "a %s b %s (c %s d)", "(a %s b) %s (c %s d)", "a %s (b %s (c %s d))", "((a %s b) %s c) %s d", "a %s b %s c %s d"}
